@@ -177,6 +177,8 @@ Tr_C09_exclusive(A, B) ==
          \/ m \in B.cl.occ /\ \E p \in LivePids(B, "TP") : p[2] = o /\ p[3] > 0 /\ B.procs[p].m = m
          \/ o \notin DOMAIN B.cl.idle /\ m \in B.cl.avail
 Inv_C09_count(X) == cfg.alg = "batch" => Card(DOMAIN X.cl.idle) <= cfg.parts
+(* the counter that limits the number of reservations is the number of reservations *)
+Inv_C09_counter(X) == cfg.alg = "batch" => X.cl.numProv = Card(DOMAIN X.cl.idle)
 Tr_C09_size(A, B) ==
     cfg.alg = "batch" =>
       \A o \in DOMAIN B.cl.idle \ DOMAIN A.cl.idle :
@@ -321,7 +323,7 @@ End_C13_times(log, X) ==
 
 (* ------------------------ bundles used by the checks --------------------- *)
 InvNames == <<"C01.exec", "C01.claim", "C01.pool", "C02.partition", "C02.counts", "C02.numprov",
-              "C07.bounds", "C07.conserved", "C08.limits", "C09.count", "C15.reported">>
+              "C07.bounds", "C07.conserved", "C08.limits", "C09.count", "C09.counter", "C15.reported">>
 InvHolds(X, n) ==
     CASE n = "C01.exec" -> Inv_C01_exec(X) [] n = "C01.claim" -> Inv_C01_claim(X)
       [] n = "C01.pool" -> Inv_C01_pool(X)
@@ -329,6 +331,7 @@ InvHolds(X, n) ==
       [] n = "C02.numprov" -> Inv_C02_numprov(X)
       [] n = "C07.bounds" -> Inv_C07_bounds(X) [] n = "C07.conserved" -> Inv_C07_conserved(X)
       [] n = "C08.limits" -> Inv_C08_limits(X) [] n = "C09.count" -> Inv_C09_count(X)
+      [] n = "C09.counter" -> Inv_C09_counter(X)
       [] n = "C15.reported" -> Inv_C15_reported(X)
 TrNames == <<"C01.noreclaim", "C02.boundary", "C03.precedence", "C03.exact", "C04.once",
              "C06.runtime", "C07.deposit", "C07.release", "C08.begin", "C08.status",
